@@ -50,7 +50,7 @@ ASSUMPTIONS = [
     "calls whose format and arguments disagree are only required not to raise",
     "logging.raiseExceptions keeps its default; the capturing handler does not format at emit time, formatting is attempted by the monitor",
 ]
-MINIMUMS = {"monitor:delivered": 10000, "monitor:tagged": 8000, "monitor:trace-id": 3000, "inherited_trace_ids": 1000, "calls_with_args_under_percent_names": 300, "own_logger_below_root": 500, "calls_outside_scope": 500, "spawned_task_calls": 300, "monitor:unique-identifier": 3000}
+MINIMUMS = {"monitor:delivered": 10000, "monitor:tagged": 8000, "monitor:trace-id": 3000, "inherited_trace_ids": 1000, "calls_with_args_under_percent_names": 300, "own_logger_below_root": 500, "calls_outside_scope": 500, "spawned_task_calls": 300, "monitor:unique-identifier": 3000, "forests_with_absorbed_exceptional_exits": 100}
 JOBS = {"quick": 4, "thorough": 16}
 LEVEL_TEXT = (
     "All forests of up to 3 nodes x {own logger?} x {own trace id?} per node with rotating name classes, and sampled forests up to 2 x 5 nodes, are executed with log calls of every level, "
@@ -109,6 +109,10 @@ def build(forest: list[dict[str, Any]], rng: random.Random) -> list[dict[str, An
                 b["trace_id"] = f"trace-{ti}-{i}" if (ti + i) % 3 else f"tr%s-{ti}-{i}"
             elif (ti + 2 * i + len(tree["parents"])) % 4 == 0:
                 b["trace_id"] = ""  # an empty id is no id: fresh one for an outermost scope, the enclosing one otherwise
+            if tree.get("exits") and tree["exits"][i]:
+                # the scope is left by an exception / a cancellation which the surrounding code absorbs; log calls that follow
+                # belong to the enclosing scope again
+                b["exit"] = {"kind": tree["exits"][i]}
             return b
 
         prog.append(node(0))
@@ -228,6 +232,8 @@ def judge(R: Recorder, forest: list[dict[str, Any]], prog: list[dict[str, Any]],
             root_ids.append(tid)
         R.monitor("trace-id", ok, where={**where, "kind": "trace-id-not-inherited" if (parent is not None and not b.get("trace_id")) else "trace-id-wrong"}, detail=detail, case=rec)
     R.count("inherited_trace_ids", inherited)
+    if any(t.get("exits") and any(t["exits"]) for t in forest):
+        R.count("forests_with_absorbed_exceptional_exits")
     # ---- identifiers are unique over the whole life of the process: across this forest and every earlier one ---------
     RUNS["n"] += 1
     for name in blocks:
@@ -325,6 +331,9 @@ def forests(tier: str, rng: random.Random):  # noqa: ANN201
             kinds = ["ascope"] + [rng.choice(["ascope", "sscope"]) for _ in range(n - 1)]
             forest.append({"parents": parents, "kinds": kinds, "places": ["root"] + [rng.choice(["inline", "inline", "spawn"]) for _ in range(n - 1)],
                            "names": [rng.choice(names) for _ in range(n)], "loggers": [rng.random() < 0.3 for _ in range(n)], "traces": [rng.random() < 0.3 for _ in range(n)]})
+            if rng.random() < 0.35:
+                # some non-root scopes are left by an exception or by a cancellation that the enclosing code absorbs
+                forest[-1]["exits"] = [None] + [rng.choice([None, None, "cancel-self", "raise-exc", "cancel-self"]) for _ in range(n - 1)]
         yield forest
 
 
